@@ -1593,7 +1593,7 @@ func (g *fnGen) enterLoop(li *loopInfo, entry *state) *state {
 	// invariants on entry
 	if li.spec != nil {
 		for i, c := range li.spec.Invariants {
-			t, err := g.evalBool(c.E, &evalEnv{g: g, cur: entry, old: g.entry, mode: "inv"})
+			t, err := g.evalBool(c.E, &evalEnv{g: g, cur: entry, old: g.entry, mode: "inv", loop: li})
 			if err != nil {
 				g.stale = append(g.stale, fmt.Sprintf("loop %d invariant %q: %v", li.ord, c.Src, err))
 				continue
@@ -1669,13 +1669,13 @@ func (g *fnGen) enterLoop(li *loopInfo, entry *state) *state {
 	// assume invariants
 	if li.spec != nil {
 		for _, c := range li.spec.Invariants {
-			t, err := g.evalBool(c.E, &evalEnv{g: g, cur: st, old: g.entry, mode: "inv"})
+			t, err := g.evalBool(c.E, &evalEnv{g: g, cur: st, old: g.entry, mode: "inv", loop: li})
 			if err == nil {
 				g.assume(st, t)
 			}
 		}
 		if c := li.spec.Decreases; c != nil {
-			t, _, err := g.eval(c.E, &evalEnv{g: g, cur: st, old: g.entry, mode: "inv"})
+			t, _, err := g.eval(c.E, &evalEnv{g: g, cur: st, old: g.entry, mode: "inv", loop: li})
 			if err != nil {
 				g.stale = append(g.stale, fmt.Sprintf("loop %d decreases %q: %v", li.ord, c.Src, err))
 			} else {
@@ -1712,14 +1712,14 @@ func (g *fnGen) backEdge(li *loopInfo, st *state, pos token.Pos) {
 		return
 	}
 	for i, c := range li.spec.Invariants {
-		t, err := g.evalBool(c.E, &evalEnv{g: g, cur: st, old: g.entry, mode: "inv"})
+		t, err := g.evalBool(c.E, &evalEnv{g: g, cur: st, old: g.entry, mode: "inv", loop: li})
 		if err != nil {
 			continue
 		}
 		g.oblige(st, "invariant-preserved", fmt.Sprintf("%s:%s", name, clauseLabel(c, i)), li.header.Instrs[0].Pos(), "", t, "loop invariant preserved: "+c.Src)
 	}
 	if c := li.spec.Decreases; c != nil && li.entryDec != "" {
-		t, _, err := g.eval(c.E, &evalEnv{g: g, cur: st, old: g.entry, mode: "inv"})
+		t, _, err := g.eval(c.E, &evalEnv{g: g, cur: st, old: g.entry, mode: "inv", loop: li})
 		if err == nil {
 			g.oblige(st, "decreases", name, li.header.Instrs[0].Pos(), "", And(S("<=", "0", li.entryDec), S("<", t, li.entryDec)), "loop variant decreases and is bounded: "+c.Src)
 		}
